@@ -155,10 +155,22 @@ def tlc_must_run(res, what):
 
 
 def parse_prints(out):
-    """Values printed by PrintT(<<"VP", tag, value>>) as (tag, raw) pairs."""
+    """Values printed by PrintT(<<"VP", tag, value>>) as (tag, raw) pairs.
+    TLC wraps long values over several lines: match brackets."""
     res = []
-    for m in re.finditer(r'^<<"VP", "([^"]+)", (.*)>>\s*$', out, re.M):
-        res.append((m.group(1), m.group(2)))
+    for m in re.finditer(r'<<\s*"VP",\s*"([^"]+)",\s*', out):
+        depth, j = 1, m.end()
+        while j < len(out) and depth > 0:
+            if out.startswith("<<", j):
+                depth += 1
+                j += 2
+            elif out.startswith(">>", j):
+                depth -= 1
+                j += 2
+            else:
+                j += 1
+        raw = out[m.end():j-2]
+        res.append((m.group(1), " ".join(raw.split())))
     return res
 
 
@@ -344,3 +356,83 @@ def check_coverage(res, required, what):
     if missing:
         raise MachineryError(f"{what}: actions never taken: {missing}")
     return cov
+
+
+# --------------------------------------------------------------------------
+# Generic batch validation with invariant-violation peeling and diagnosis
+# --------------------------------------------------------------------------
+def _tid_of_counterexample(out):
+    m = re.findall(r"/\\ tid = (\d+)", out)
+    return int(m[-1]) if m else None
+
+
+def validate_batch(rep, module, cfg, tlc_traces, label, chunk=2500,
+                   count=True, timeout=3000, dfs=False):
+    """Validate `tlc_traces` (JSON-able, what TLC reads).  Returns a list of
+    (index, reason) for traces that are not accepted: reason is
+    'invariant <name>' (TLC found an invariant of the spec violated in a
+    state of that recorded execution) or 'rejected' (not a behaviour)."""
+    bad = []
+    idx = list(range(len(tlc_traces)))
+    for c0 in range(0, len(idx), chunk):
+        cur = idx[c0:c0+chunk]
+        for _ in range(40):
+            if not cur:
+                break
+            wd = scratch("trace-")
+            path = os.path.join(wd, "traces.json")
+            with open(path, "w") as f:
+                json.dump([tlc_traces[i] for i in cur], f,
+                          separators=(",", ":"))
+            res = run_tlc(module, cfg, workdir=wd, workers=1, timeout=timeout,
+                          env={"TRACE_FILE": path}, deadlock=False, dfs=dfs)
+            tlc_must_run(res, f"trace validation {label}")
+            if count:
+                rep.add_tlc(f"{module}[{label}] {len(cur)} traces", res,
+                            "trace")
+            shutil.rmtree(wd, ignore_errors=True)
+            if res.violated:
+                tid = _tid_of_counterexample(res.out)
+                if tid is None:
+                    raise MachineryError(
+                        "cannot find tid in TLC counterexample:\n" +
+                        res.out[-3000:])
+                bad.append((cur[tid-1], f"invariant {res.violated}"))
+                cur = cur[:tid-1] + cur[tid:]
+                continue
+            rej = None
+            inv = {}
+            for tag, raw in res.prints:
+                if tag == "rejected":
+                    rej = tla_set_ints(raw)
+                if tag == "invfail":
+                    for m in re.finditer(r'<<(\d+), "(\w+)">>', raw):
+                        inv.setdefault(int(m.group(1)), []).append(m.group(2))
+            if rej is None:
+                raise MachineryError("no rejected set printed:\n" +
+                                     res.out[-3000:])
+            for t in sorted(inv):
+                bad.append((cur[t-1],
+                            "invariant " + ",".join(sorted(inv[t]))))
+            bad += [(cur[t-1], "rejected") for t in rej if t not in inv]
+            break
+        else:
+            raise MachineryError("too many invariant violations in traces")
+    return bad
+
+
+def diagnose_one(module, cfg, tlc_trace, n_events):
+    wd = scratch("diag-")
+    path = os.path.join(wd, "traces.json")
+    with open(path, "w") as f:
+        json.dump([tlc_trace], f)
+    res = run_tlc(module, cfg, workdir=wd, workers=1, timeout=600,
+                  env={"TRACE_FILE": path, "TRACE_DIAG": "1"}, deadlock=False)
+    info = dict(res.prints)
+    try:
+        ml = int(info.get("maxl", "0"))
+    except ValueError:
+        ml = 0
+    return {"matched_events": max(ml-1, 0), "of": n_events,
+            "spec_state_there": info.get("laststate"),
+            "violated": res.violated}
